@@ -80,7 +80,7 @@ JOBS.append(dict(name='scalePositions[bounded]', bodies=['scalePositions'], enfo
                  bounded='at most 2 positions; the loop writes the result arrays and is unwound completely'))
 JOBS.append(dict(name='isScalable_pair', bodies=['isScalable_pair'], enforce=['isScalable_pair'], replace=[], includes=['c18_scalable.h'], extra_c='int gh_si[3], gh_pre[3], gh_base[3], gh_pow[3]; int gh_splits;\n',
                  expect_kinds=['postcondition'], timeout=300))
-SPEC = dict(contracts=['c18_units.h', 'c18_scale.h', 'c18_scalable.h'], stubs=[], units=UNITS, jobs=JOBS, pre_hook=gen_table,
+SPEC = dict(contracts=['c18_units.h', 'c18_scale.h', 'c18_scalable.h'], include_order=['c18_units.h'], stubs=[], units=UNITS, jobs=JOBS, pre_hook=gen_table,
             trusted_base=['CBMC 6.11.0 (C front end, --dfcc, SAT back end)', 'vlib/cxx2c.py idiom map; the PREFIX_FACTORS initialiser is turned into a C array by vlib/props/c18.py',
                           'std::string abstracted to an integer id; std::map::at = table lookup; pow for integer exponents -3..3 = repeated multiplication (libm rounding not modelled)',
                           'splitUnit / isScalable / isSIUnit (boost::regex grammar) are ghost inputs'],
